@@ -236,6 +236,26 @@ func sortedKeys(m map[string]string) []string {
 	return keys
 }
 
+// entryModeClass is the type and special-bit letters of Info().Mode() of a
+// ReadDir entry as recorded by entryFields ("d", "dt", "u", "L", "-" ...).
+func entryModeClass(e string) string {
+	f := splitV(e)
+	if len(f) < 5 {
+		return "?"
+	}
+
+	in := strings.Split(f[4], ",")
+	if len(in) < 3 || len(in[2]) < 9 {
+		return "no-info"
+	}
+
+	if m := in[2][:len(in[2])-9]; m != "" {
+		return m
+	}
+
+	return "-"
+}
+
 func resultClass(q query, o outcome) string {
 	switch q.Func {
 	case "Glob":
@@ -291,6 +311,13 @@ func (c *checker) checkTree(es []ent, ops []mop, qr []qres, fsList []string, vie
 
 	for _, r := range qr {
 		c.st.Classes[resultClass(r.Q, r.Out)]++
+
+		// which kinds of entries the oracle listed: type and special bits
+		if r.Q.Func == "ReadDir" && r.Out.Kind == "ok" {
+			for _, e := range r.Out.List {
+				c.st.Classes["ReadDir:entry:"+entryModeClass(e)]++
+			}
+		}
 	}
 
 	for _, fsName := range fsList {
